@@ -104,6 +104,43 @@ fn orders<const D: usize>(id: &str, rng: &mut Rng, out: &mut Out) {
     }
 }
 
+/// the public Hilbert sorting helpers (stable / unstable / index list): permutations of their
+/// input whose Hilbert keys (recomputed with the public `hilbert_index`) are non-decreasing
+fn hsorts<const D: usize>(id: &str, rng: &mut Rng, out: &mut Out) {
+    use delaunay::core::util::hilbert::{hilbert_index, hilbert_sort_by_stable, hilbert_sort_by_unstable, hilbert_sorted_indices};
+    let n = 2 + rng.below(14) as usize;
+    let (pts, _exactq, fam) = point_list(rng, D, n);
+    if pts.iter().any(|p| p.iter().any(|x| !x.is_finite())) { return; }
+    let vs = mk::<D>(&pts, rng);
+    let lo = pts.iter().flat_map(|p| p.iter().copied()).fold(f64::INFINITY, f64::min);
+    let hi = pts.iter().flat_map(|p| p.iter().copied()).fold(f64::NEG_INFINITY, f64::max);
+    let bounds = if lo < hi { (lo, hi) } else { (lo, lo + 1.0) };
+    let max_bits = (128 / D as u32).min(31);
+    let bits = [1u32, 4, 16, max_bits][rng.below(4) as usize].min(max_bits);
+    let key = |v: &V<D>| -> String { match catch(|| hilbert_index::<f64, D>(v.point().coords(), bounds, bits)) { Ok(Ok(k)) => k.to_string(), _ => "x".into() } };
+    for sid in [10u32, 11, 12] {
+        let r: Result<Result<Vec<V<D>>, String>, String> = catch(|| {
+            let mut items = vs.clone();
+            match sid {
+                10 => hilbert_sort_by_stable(&mut items, bounds, bits, |v: &V<D>| *v.point().coords()).map(|_| items).map_err(|e| format!("{e:?}")),
+                11 => hilbert_sort_by_unstable(&mut items, bounds, bits, |v: &V<D>| *v.point().coords()).map(|_| items).map_err(|e| format!("{e:?}")),
+                _ => {
+                    let cs: Vec<[f64; D]> = vs.iter().map(|v| *v.point().coords()).collect();
+                    hilbert_sorted_indices(&cs, bounds, bits).map(|ix| ix.iter().filter_map(|&i| vs.get(i).copied()).collect::<Vec<_>>()).map_err(|e| format!("{e:?}"))
+                }
+            }
+        });
+        out.case(&format!("{id}_s{sid}"), "ord", &format!("D={D} strategy={sid} exactq=0 fam={fam} bits={bits}"));
+        write_in(&vs, out);
+        match r {
+            Ok(Ok(o)) => { out.obs("out", &seq(&o)); out.obs("keys", &o.iter().map(key).collect::<Vec<_>>().join(" ")); }
+            Ok(Err(e)) => out.obs("out", &format!("err {}", crate::tri::err_kind(&e))),
+            Err(m) => out.obs("out", &format!("panic {m}")),
+        }
+        out.end();
+    }
+}
+
 fn dedups<const D: usize>(id: &str, rng: &mut Rng, out: &mut Out) {
     let n = 3 + rng.below(14) as usize;
     // clustered points: copies displaced by multiples of the tolerance
@@ -217,10 +254,10 @@ pub fn run(cfg: &Cfg, rng: &mut Rng, out: &mut Out) {
     let no = if thorough { 400 } else { 150 };
     for i in 0..no {
         match 2 + (i % 4) {
-            2 => { orders::<2>(&format!("o{i}"), rng, out); dedups::<2>(&format!("e{i}"), rng, out); }
-            3 => { orders::<3>(&format!("o{i}"), rng, out); dedups::<3>(&format!("e{i}"), rng, out); }
-            4 => { orders::<4>(&format!("o{i}"), rng, out); dedups::<4>(&format!("e{i}"), rng, out); }
-            _ => { orders::<5>(&format!("o{i}"), rng, out); dedups::<5>(&format!("e{i}"), rng, out); }
+            2 => { orders::<2>(&format!("o{i}"), rng, out); dedups::<2>(&format!("e{i}"), rng, out); hsorts::<2>(&format!("hs{i}"), rng, out); }
+            3 => { orders::<3>(&format!("o{i}"), rng, out); dedups::<3>(&format!("e{i}"), rng, out); hsorts::<3>(&format!("hs{i}"), rng, out); }
+            4 => { orders::<4>(&format!("o{i}"), rng, out); dedups::<4>(&format!("e{i}"), rng, out); hsorts::<4>(&format!("hs{i}"), rng, out); }
+            _ => { orders::<5>(&format!("o{i}"), rng, out); dedups::<5>(&format!("e{i}"), rng, out); hsorts::<5>(&format!("hs{i}"), rng, out); }
         }
     }
 }
